@@ -292,7 +292,7 @@ def _never(module, env):
     if module == "MC_BlockMulti":
         return {"iso": ("Tick", "Other", "HostileStep"), "expiry": ("HostileStep",), "hostile": ("Tick", "Other", "TransferStep")}[env["MODE"]]
     if module == "MC_BlockTransfer":
-        return {"dl": ("UlAbandonStep", "UlSend"), "ul": ("DlSend", "DlAfter")}[env["MODE"]]
+        return ()
     return ()
 
 
@@ -344,6 +344,8 @@ def _server(ctx, props, bins=None):
 def c08(ctx):
     size = "full" if ctx.thorough else "small"
     _scripts(ctx, "MC_BlockTransfer", {"MODE": "dl", "SIZE": size}, {"C08"}, "dl")
+    # growth: a repeated block request (lost reply) while the transfer is unfinished
+    _scripts(ctx, "MC_BlockTransfer", {"MODE": "dlre", "SIZE": size}, {"C08"}, "dlre", bins=(ctx.build("dev"),))
     _block_traces(ctx, ["block2", "budget"], {"C08"})
     if ctx.thorough:
         _server(ctx, {"C08"})
@@ -352,6 +354,8 @@ def c08(ctx):
 def c09(ctx):
     size = "full" if ctx.thorough else "small"
     _scripts(ctx, "MC_BlockTransfer", {"MODE": "ul", "SIZE": size}, {"C09"}, "ul")
+    # growth: the non-final blocks after block 0 in every order
+    _scripts(ctx, "MC_BlockTransfer", {"MODE": "ulperm", "SIZE": "full"}, {"C09"}, "ulperm", bins=(ctx.build("dev"),))
     _block_traces(ctx, ["block1", "budget"], {"C09"})
     if ctx.thorough:
         _server(ctx, {"C09"})
